@@ -426,7 +426,11 @@ pub fn gen_adds(r: &mut Rng) -> String {
     let ops: Vec<String> = (0..n)
         .map(|_| {
             let tag = *r.pick(&[1u8, 1, 1, 2, 4]);
-            let name = *r.pick(&names);
+            // the other operation attributes RFC 8011 registers (requests and responses): none of them has a fixed position
+            let others = ["status-message", "detailed-status-message", "document-access-error", "job-name", "document-name", "compression",
+                "ipp-attribute-fidelity", "last-document", "which-jobs", "limit", "my-jobs", "requested-attributes", "document-natural-language",
+                "job-k-octets", "message", "purge-jobs", "printer-up-time", "job-impressions", "job-media-sheets", "document-uri", "first-job-id"];
+            let name = if r.chance(1, 3) { *r.pick(&others) } else { *r.pick(&names) };
             format!("(op {:02x} {} {})", tag, hex(name.as_bytes()), value_str(&gen_scalar(r, &lim, false)))
         })
         .collect();
